@@ -606,8 +606,8 @@ def build_scheme(B, T, unit, form=0):
     return ScoringScheme(vec)
 
 
-def to_units(x, unit):
-    """float result -> (integer in units, exact?)"""
+def to_units(x, unit, tol=1e-6):
+    """float result -> (integer in units, exact?)  exact = within tol (absolute, in natural units; 0 = bit-exact)"""
     if x is None:
         return 0, False
     try:
@@ -619,7 +619,7 @@ def to_units(x, unit):
     r = int(round(v))
     if abs(r) >= 2 ** 31:
         return 0, False
-    return r, (abs(v - r) <= 1e-6 * unit)
+    return r, (abs(v - r) <= tol * unit)
 
 
 # lexicographic schemes: the library gets  2^34 * S1 + S2  (two magnitudes ten orders apart, or penalties that differ
